@@ -165,7 +165,8 @@ Invalid(b) ==
             /\ cache' = Without(cache, b)
             /\ UNCHANGED idxF
        ELSE /\ idxF' = SetFlag(idxF, b, "inv")
-            /\ index' = [index EXCEPT ![b].tr = TRUE]      \* setBlockFlag sets cur.trusted whatever the flag
+            /\ index' = index      \* only the flag on disk changes (until fix f9d6817b setBlockFlag also set cur.trusted here,
+                                   \* which made the node skip the script checks of an invalid block delivered again: see C06 family ForkE)
             /\ UNCHANGED cache
     /\ stored' = stored \ {b}
     /\ trustG' = trustG \ {b}
